@@ -1218,6 +1218,9 @@ class Emitter:
                             AW('(%s)%s >= %dULL' % (UXw, X, C), 'WRAP:unsigned-sub', ins.dbg)
                             code.append('%s = (%s)((%s)%s %s (%s)%s);' % (d, UXw, UXw, X, cop, UXw, Y))
                         else:
+                            if w == 64 and op == 'mul' and not isinstance(x, CInt) and not isinstance(y, CInt) and 'nuw' not in flags:
+                                AW('!LL2C_UMULOVF64(%s, %s)' % (X, Y), 'WRAP:unsigned-mul', ins.dbg)
+                                code.append('%s = LL2C_UMUL64(%s, %s);' % (d, X, Y)); continue
                             if w < 32:
                                 AW('((uint64_t)%s %s (uint64_t)%s) <= %dULL' % (X, cop, Y, (1 << w) - 1), 'WRAP:unsigned-' + op, ins.dbg)
                             else:
@@ -1231,7 +1234,10 @@ class Emitter:
                         code.append('%s = (%s)((%s)%s %s (%s)%s);' % (d, UXw, SXw, X, cop, SXw, Y))
                     elif op in ('udiv', 'urem'):
                         A('%s != 0' % Y, 'UB:div-by-zero', ins.dbg)
-                        code.append('%s = (%s)((%s)%s %s (%s)%s);' % (d, UXw, UXw, X, cop, UXw, Y))
+                        if w == 64 and not isinstance(y, CInt):
+                            code.append('%s = %s(%s, %s);' % (d, 'LL2C_UDIV64' if op == 'udiv' else 'LL2C_UREM64', X, Y))
+                        else:
+                            code.append('%s = (%s)((%s)%s %s (%s)%s);' % (d, UXw, UXw, X, cop, UXw, Y))
                     elif op in ('shl', 'lshr', 'ashr'):
                         A('(%s)%s < %d' % (UXw, Y, w), 'UB:shift-amount', ins.dbg)
                         if op == 'ashr':
@@ -1531,6 +1537,14 @@ PRELUDE = r'''/* generated by /verif/vf/ll2c.py from clang-14 LLVM IR -- do not 
 #include <math.h>
 #ifndef LL2C_CHECK_WRAP
 #define LL2C_CHECK_WRAP 0
+#endif
+/* 64-bit unsigned multiplication and division by a NON-CONSTANT operand go through these macros: they are the C operators unless an
+   obligation interprets them as uninterpreted functions (lemma-based obligations: the arithmetic facts are then Lean-checked lemmas) */
+#ifndef LL2C_UMUL64
+#define LL2C_UMUL64(x, y) ((uint64_t)((uint64_t)(x) * (uint64_t)(y)))
+#define LL2C_UMULOVF64(x, y) __CPROVER_overflow_mult((uint64_t)(x), (uint64_t)(y))
+#define LL2C_UDIV64(x, y) ((uint64_t)((uint64_t)(x) / (uint64_t)(y)))
+#define LL2C_UREM64(x, y) ((uint64_t)((uint64_t)(x) % (uint64_t)(y)))
 #endif
 static inline float ll2c_bits_f32(uint32_t b) { union { uint32_t i; float f; } u; u.i = b; return u.f; }
 static inline double ll2c_bits_f64(uint64_t b) { union { uint64_t i; double f; } u; u.i = b; return u.f; }
